@@ -2,6 +2,8 @@
 EXTENDS Config, Json
 KeysC == {"r1", "r2", "zz"}
 KnownC == {"r1", "r2"}
+NoVaries == {}
+OneVaries == {<<"r1", "British">>}
 \* (R) generation: every (cfg, other) pair; the harness applies every operation to each
 ToRec(c) == [k \in DOMAIN c |-> c[k]]
 EmitCase == nops = 0 => PrintT(<<"CASE", ToJson([cfg |-> cfg, other |-> other])>>)
